@@ -1236,9 +1236,18 @@ enum cc_stat cc_deque_zip_iter_add(CC_DequeZipIter *iter, void *e1, void *e2)
         return CC_ERR_ALLOC;
     }
 
-    /* The retun status can be ignored since the checks have already been made. */
-    cc_deque_add_at(iter->d1, e1, iter->index);
-    cc_deque_add_at(iter->d2, e2, iter->index);
+    /* When both sides are the same deque the second insertion may still have
+       to grow the buffer, so the statuses cannot be ignored. */
+    enum cc_stat status = cc_deque_add_at(iter->d1, e1, iter->index);
+    if (status != CC_OK)
+        return status;
+
+    status = cc_deque_add_at(iter->d2, e2, iter->index);
+    if (status != CC_OK) {
+        /* Both or none: take the first element out again. */
+        cc_deque_remove_at(iter->d1, iter->index, NULL);
+        return status;
+    }
 
     iter->index++;
     return CC_OK;
